@@ -13,7 +13,9 @@ import (
 
 	"google.golang.org/protobuf/types/known/timestamppb"
 	"reduction.dev/reduction-protocol/handlerpb"
+	"reduction.dev/reduction-protocol/jobconfigpb"
 	"reduction.dev/reduction/batching"
+	"reduction.dev/reduction/connectors"
 	"reduction.dev/reduction/connectors/embedded"
 	"reduction.dev/reduction/proto"
 	"reduction.dev/reduction/proto/jobpb"
@@ -73,6 +75,225 @@ func (h *c11Handler) take() string {
 	return s
 }
 
+// ---- the runner's real event loop (Start + HandleDeploy + processEvents + the send goroutine) ----
+
+type c11Cmd struct {
+	events [][]byte // nil = yield (an empty read)
+}
+
+// c11Reader is the scripted source: ReadEvents blocks until the harness hands it the next read.
+type c11Reader struct {
+	connectors.UnimplementedSourceReader
+	cmd chan c11Cmd
+}
+
+func (r *c11Reader) AssignSplits([]*workerpb.SourceSplit) error { return nil }
+func (r *c11Reader) ReadEvents() ([][]byte, error) {
+	c, ok := <-r.cmd
+	if !ok {
+		return nil, connectors.ErrEndOfInput
+	}
+	return c.events, nil
+}
+
+// c11Keyer keys a raw event "a+b" to keyed events with these timestamps ("-" = none).
+type c11Keyer struct{}
+
+func (c11Keyer) ProcessEventBatch(context.Context, *handlerpb.ProcessEventBatchRequest) (*handlerpb.ProcessEventBatchResponse, error) {
+	return &handlerpb.ProcessEventBatchResponse{}, nil
+}
+func (c11Keyer) KeyEventBatch(ctx context.Context, events [][]byte) ([][]*handlerpb.KeyedEvent, error) {
+	out := make([][]*handlerpb.KeyedEvent, len(events))
+	for i, e := range events {
+		if string(e) == "-" {
+			continue
+		}
+		for _, t := range strings.Split(string(e), "+") {
+			out[i] = append(out[i], &handlerpb.KeyedEvent{Key: []byte("k"), Timestamp: timestamppb.New(timeOfNs(t))})
+		}
+	}
+	return out, nil
+}
+
+type c11LoopJob struct{ proto.UnimplementedJob }
+
+func (c11LoopJob) RegisterSourceRunner(context.Context, *jobpb.NodeIdentity) error   { return nil }
+func (c11LoopJob) DeregisterSourceRunner(context.Context, *jobpb.NodeIdentity) error { return nil }
+
+// c11LoopSink records what the operator is given, reading every value at the moment of delivery.
+type c11LoopSink struct {
+	proto.UnimplementedOperator
+	mu   sync.Mutex
+	seen []string
+}
+
+func (o *c11LoopSink) HandleEventBatch(ctx context.Context, batch []*workerpb.Event) error {
+	o.mu.Lock()
+	defer o.mu.Unlock()
+	for _, e := range batch {
+		switch te := e.Event.(type) {
+		case *workerpb.Event_KeyedEvent:
+			o.seen = append(o.seen, "k"+nsOfTime(te.KeyedEvent.Timestamp.AsTime()))
+		case *workerpb.Event_Watermark:
+			o.seen = append(o.seen, "w"+nsOfTime(te.Watermark.Timestamp.AsTime()))
+		}
+	}
+	return nil
+}
+func (o *c11LoopSink) ID() string { return "loopsink" }
+func (o *c11LoopSink) count() int {
+	o.mu.Lock()
+	defer o.mu.Unlock()
+	return len(o.seen)
+}
+
+type c11Item struct {
+	raw   bool
+	keyed int
+}
+
+type c11Loop struct {
+	sr      *sourcerunner.SourceRunner
+	reader  *c11Reader
+	ticks   chan time.Time
+	sink    *c11LoopSink
+	done    chan error
+	n       int
+	items   []c11Item
+	shown   int
+	failure string
+}
+
+func newC11Loop(n int) *c11Loop {
+	for attempt := 0; ; attempt++ {
+		l := &c11Loop{reader: &c11Reader{cmd: make(chan c11Cmd)}, ticks: make(chan time.Time), sink: &c11LoopSink{}, done: make(chan error, 1), n: max(n, 1)}
+		l.sr = sourcerunner.New(sourcerunner.NewParams{
+			Host: "sr", UserHandler: c11Keyer{}, Job: c11LoopJob{},
+			OperatorFactory:     func(string, *jobpb.NodeIdentity) proto.Operator { return l.sink },
+			SourceReaderFactory: func(*jobconfigpb.Source) connectors.SourceReader { return l.reader },
+			EventBatching:       batching.EventBatcherParams{MaxSize: n}, // no MaxDelay: whole batches only
+		})
+		go func() { l.done <- l.sr.Start(context.Background()) }()
+		t0 := time.Now()
+		err := l.sr.HandleDeploy(context.Background(), &workerpb.DeploySourceRunnerRequest{
+			Sources: []*jobconfigpb.Source{{}}, Operators: []*jobpb.NodeIdentity{{Id: "op1", Host: "h"}}, KeyGroupCount: 8,
+		})
+		if err != nil {
+			l.failure = "deploy-error"
+			return l
+		}
+		// the 200ms ticker created by HandleDeploy is replaced before it can have fired
+		l.sr.VerifSetWatermarkTicks(l.ticks)
+		fresh := time.Since(t0) < 120*time.Millisecond
+		if err := l.sr.HandleAssignSplits([]*workerpb.SourceSplit{{}}); err != nil {
+			l.failure = "assign-error"
+			return l
+		}
+		if fresh || attempt >= 3 {
+			return l
+		}
+		l.close()
+	}
+}
+
+func (l *c11Loop) close() {
+	l.sr.Stop()
+	close(l.reader.cmd)
+	select {
+	case <-l.done:
+	case <-time.After(5 * time.Second):
+	}
+}
+
+func (l *c11Loop) read(raws []string) string {
+	if l.failure != "" {
+		return l.failure
+	}
+	evs := make([][]byte, len(raws))
+	for i, r := range raws {
+		evs[i] = []byte(r)
+		k := 0
+		if r != "-" {
+			k = strings.Count(r, "+") + 1
+		}
+		l.items = append(l.items, c11Item{raw: true, keyed: k})
+	}
+	select {
+	case l.reader.cmd <- c11Cmd{events: evs}:
+		return "ok"
+	case <-time.After(10 * time.Second):
+		l.failure = "timeout"
+		return "timeout"
+	}
+}
+
+func (l *c11Loop) tick() string {
+	if l.failure != "" {
+		return l.failure
+	}
+	deadline := time.After(10 * time.Second)
+	for {
+		// the loop is either selecting (takes the tick) or inside ReadEvents (takes an empty read and selects again)
+		select {
+		case l.ticks <- time.Now():
+			l.items = append(l.items, c11Item{})
+			return "ok"
+		case l.reader.cmd <- c11Cmd{}:
+		case <-deadline:
+			l.failure = "timeout"
+			return "timeout"
+		}
+	}
+}
+
+// expected number of items at the operator: placeholders are sent in order, a keyed placeholder once its key-event
+// batch of n raw events is complete, and the operator batcher delivers whole batches of n (only tells how long to wait)
+func (l *c11Loop) expected() int {
+	raws := 0
+	for _, it := range l.items {
+		if it.raw {
+			raws++
+		}
+	}
+	resolved := raws / l.n * l.n
+	seen, items := 0, 0
+	for _, it := range l.items {
+		if it.raw {
+			if seen >= resolved {
+				break
+			}
+			seen++
+			items += it.keyed
+		} else {
+			items++
+		}
+	}
+	return items / l.n * l.n
+}
+
+func (l *c11Loop) drain() string {
+	if l.failure != "" {
+		return l.failure
+	}
+	want := l.expected()
+	deadline := time.Now().Add(10 * time.Second)
+	for l.sink.count() < want {
+		if time.Now().After(deadline) {
+			break
+		}
+		time.Sleep(200 * time.Microsecond)
+	}
+	time.Sleep(2 * time.Millisecond) // anything delivered beyond the expectation shows up too
+	l.sink.mu.Lock()
+	defer l.sink.mu.Unlock()
+	out := append([]string(nil), l.sink.seen[min(l.shown, len(l.sink.seen)):]...)
+	l.shown = len(l.sink.seen)
+	if len(out) == 0 {
+		return "-"
+	}
+	return strings.Join(out, ",")
+}
+
 var c11Seq atomic.Int64
 var c11Quiet sync.Once
 
@@ -96,6 +317,7 @@ func (o *c11Sink) HandleEventBatch(ctx context.Context, batch []*workerpb.Event)
 func (o *c11Sink) ID() string { return "sink" }
 
 type c11Env struct {
+	loop    *c11Loop
 	sender  *sourcerunner.VerifSender
 	sink    *c11Sink
 	w       *wmark.Watermarker
@@ -182,7 +404,18 @@ func (e *c11Env) await(want int) ([]string, bool) {
 	return got, true
 }
 
+func (e *c11Env) theLoop() *c11Loop {
+	if e.loop == nil {
+		n, _ := strconv.Atoi(e.hdr[3])
+		e.loop = newC11Loop(n)
+	}
+	return e.loop
+}
+
 func (e *c11Env) close() {
+	if e.loop != nil {
+		e.loop.close()
+	}
 	if e.sender != nil {
 		e.sender.Close()
 	}
@@ -206,6 +439,12 @@ func (e *c11Env) step(op string) string {
 		return "ok"
 	case "tick":
 		return nsOfTime(e.w.CurrentWatermark())
+	case "lread":
+		return e.theLoop().read(f[1:])
+	case "ltick":
+		return e.theLoop().tick()
+	case "ldrain":
+		return e.theLoop().drain()
 	case "revs":
 		// a keyed-event placeholder resolved with this batch, sent through the real sendOperatorEvent
 		e.runner()
@@ -263,6 +502,7 @@ func propC11() *lib.Prop {
 		Rule: "cases = (a) event-timestamp sequences (ordered or not, with ties, zero-time and large values) fed to the real Watermarker with CurrentWatermark sampled at arbitrary points; " +
 			"(b) keyed events (whose handler response registers timers) and watermark messages from 1-4 runners in scripted interleavings sent to a real Operator (one key group, in-memory DKV, batch sizes 1-4); compared: " +
 			"(a') the same sequences sent through the real SourceRunner.sendOperatorEvent (placeholders resolved with event batches, watermark placeholders stamped when sent) to a recording operator; " +
+			"(c) the runner's real event loop (Start, HandleDeploy, processEvents, the send goroutine, key-event fetcher and operator batching with batch sizes 1-5 and no batch delay) fed by a scripted source and harness-controlled watermark ticks: the stream the operator receives, every value read at delivery, against the delivered-stream model; " +
 			"every ProcessEventBatchRequest (Watermark field, keyed and TimerExpired events in order) and the registry's composite after each message; non-trivial = at least 2 runners whose latest watermarks differ at some point and a timer fired, or an unordered timestamp sequence with at least one sample; " +
 			"fixed cases enumerate all interleavings of 2-3 runners x up to 2-3 messages",
 		NumCases: func(tier string) int {
@@ -290,12 +530,60 @@ func propC11() *lib.Prop {
 			if tier == "thorough" {
 				mk([][]string{{"wm 0 3", "wm 0 6", "wm 0 9"}, {"wm 1 4", "wm 1 5", "wm 1 8"}, {"wm 2 2", "wm 2 7", "wm 2 9"}}, 3)
 			}
+			// the runner's event loop with batches of 4: two watermarks wait in one operator batch while a later event is
+			// forwarded; each must arrive with the value it was stamped with (10, 9, 100, 99)
+			cs = append(cs, lib.Case{Header: "M C11 0 4 1 1", Tags: []string{"loop"},
+				Ops: []string{"lread 10 - - -", "ltick", "ldrain", "lread 100 - -", "lread -", "ltick", "ldrain"}})
+			cs = append(cs, lib.Case{Header: "M C11 0 3 1 1", Tags: []string{"loop"},
+				Ops: []string{"ltick", "lread 5+7 - 6", "ltick", "ltick", "ldrain", "lread 50 - -", "ltick", "ldrain", "ltick", "ltick", "ldrain"}})
 			// before any watermark message the handler is told time.Time{}; a runner that saw no event reports below the epoch
 			cs = append(cs, lib.Case{Header: "M C11 0 2 2 1", Tags: []string{"initial"},
 				Ops: []string{"tick", "keyed 0 6b 5", "keyed 1 6b 0", "wm 0 10", "keyed 0 61 -", "wm 1 -62135596800000000001", "keyed 0 61 -", "keyed 0 61 -", "wm 1 7", "keyed 0 61 -"}})
 			return cs
 		},
 		Gen: func(r *lib.Rng, tier string, i int) lib.Case {
+			if i%4 == 1 {
+				// (c) the runner's real event loop: reads, watermark ticks, batches of n, delivery observed at the operator
+				n := r.Range(1, 5)
+				c := lib.Case{Header: fmt.Sprintf("M C11 0 %d 1 1", n), Tags: []string{"loop"}}
+				scale := lib.Pick(r, []int64{1, 1000, 1_000_000_000})
+				cur := int64(r.Intn(10))
+				steps := r.Range(4, 25)
+				for j := 0; j < steps; j++ {
+					switch r.Intn(5) {
+					case 0, 1:
+						c.Ops = append(c.Ops, "ltick")
+					case 2:
+						c.Ops = append(c.Ops, "ldrain")
+					default:
+						k := r.Range(1, n+1)
+						op := "lread"
+						for ; k > 0; k-- {
+							switch r.Intn(4) {
+							case 0:
+								op += " -"
+							case 1:
+								cur += int64(r.Intn(9)) - 3
+								if cur < 0 {
+									cur = 0
+								}
+								a := cur * scale
+								cur += int64(r.Intn(5))
+								op += fmt.Sprintf(" %d+%d", a, cur*scale)
+							default:
+								cur += int64(r.Intn(9)) - 2
+								if cur < 0 {
+									cur = 0
+								}
+								op += fmt.Sprintf(" %d", cur*scale)
+							}
+						}
+						c.Ops = append(c.Ops, op)
+					}
+				}
+				c.Ops = append(c.Ops, "ldrain")
+				return c
+			}
 			if i%3 == 0 {
 				// (a) watermarker
 				lat := lib.Pick(r, []int64{0, 0, 1, 5, 1000, 1_000_000_000, 3_600_000_000_000})
@@ -396,6 +684,17 @@ func propC11() *lib.Prop {
 			}
 			if wmk {
 				return true
+			}
+			for _, t := range c.Tags {
+				if t == "loop" {
+					// at least one watermark reached the operator
+					for i, o := range out {
+						if c.Ops[i] == "ldrain" && strings.Contains(o, "w") {
+							return true
+						}
+					}
+					return false
+				}
 			}
 			fired := false
 			for _, o := range out {
